@@ -232,6 +232,15 @@ func runCase(cs *Case, root string) (res CaseResult) {
 		default:
 			panic("unknown top " + cs.Top)
 		}
+		for _, ml := range mls {
+			res.Loaders = append(res.Loaders, ml != nil)
+		}
+		// the parent of the file-based loaders
+		var fbParent px.Loader = parent
+		if cs.Top == "runtime" {
+			fbParent = pcore.SystemLoader()
+		}
+		res.Shadow = shadowOf(c, fbParent, cs)
 		children := map[int]px.Loader{}
 		sps := map[int]loader.SmartPath{}
 		for _, op := range cs.Ops {
@@ -321,6 +330,56 @@ func runCase(cs *Case, root string) (res CaseResult) {
 		}
 	})
 	return res
+}
+
+// shadowOf: which of the names that occur in the case (requested, referred to, declared, members, implied by
+// file paths) the given loader binds, and under which name
+func shadowOf(c px.Context, l px.Loader, cs *Case) map[string]string {
+	cands := map[string]bool{}
+	add := func(n string) {
+		n = strings.TrimPrefix(n, "::")
+		if n != "" {
+			cands[n] = true
+		}
+	}
+	for _, op := range cs.Ops {
+		add(op.Name)
+	}
+	for _, m := range cs.Mods {
+		add(m.Name)
+		for _, f := range m.Files {
+			if strings.HasPrefix(f.Rel, "types/") && strings.HasSuffix(f.Rel, ".pp") {
+				n := strings.ReplaceAll(f.Rel[len("types/"):len(f.Rel)-3], "/", "::")
+				add(n)
+				add(m.Name + "::" + n)
+			}
+			if f.Content != nil {
+				add(f.Content.Declared)
+				for _, r := range f.Content.Refs {
+					add(r)
+				}
+				for _, mn := range f.Content.Members {
+					add(f.Content.Declared + "::" + mn)
+				}
+			}
+		}
+	}
+	out := map[string]string{}
+	for n := range cands {
+		func() {
+			defer func() { _ = recover() }()
+			tn := px.NewTypedName(px.NsType, n)
+			if !l.HasEntry(tn) {
+				return
+			}
+			if e := l.LoadEntry(c, tn); e != nil {
+				if t, ok := e.Value().(px.Type); ok {
+					out[lowerASCII(n)] = lowerASCII(t.Name())
+				}
+			}
+		}()
+	}
+	return out
 }
 
 // childMain runs the cases of a batch file from index `from` on and appends one JSON line per case.
